@@ -54,5 +54,6 @@ theorem readMappingShape : Facts.readMappingShape = Spec.readMappingShape := by 
 theorem readerNotifierShape : Facts.readerNotifierShape = Spec.readerNotifierShape := by rfl
 theorem retryableShape : Facts.retryableShape = Spec.retryableShape := by rfl
 theorem writeErrorShape : Facts.writeErrorShape = Spec.writeErrorShape := by rfl
+theorem writeBodyShape : Facts.writeBodyShape = Spec.writeBodyShape := by rfl
 theorem newRouterShape : Facts.newRouterShape = Spec.newRouterShape := by rfl
 end Pins
